@@ -217,6 +217,75 @@ def site_stream(mmv, pkg, shapes=((0, 0), (1, 3), (2, 1), (3, 0), (3, 3), (4, 2)
     return cases
 
 
+def hook_fuzz_cases(mmv, pkg, rng, per_union=16):
+    """Differential fuzz of every union type the package dispatches on (registered hooks, cattrs' own disambiguators, Optional[...]):
+    the union itself is the target; inputs are built from valid values of its member classes by dropping / adding / re-kinding the
+    keys and literals that ANY hook probes, by wrapping into (mixed) arrays, plus primitives.  Most inputs are NOT valid for the union:
+    the point is that model and real converter agree on every path of every hook (ok/raise, object graph, re-serialisation)."""
+    import re as _re
+    try:
+        txt = open(os.path.join(V.GEN, "PkgData.v")).read()
+        hooks_txt = txt[txt.index("Definition uhooks_"):txt.index("Definition Sg")]
+    except Exception:
+        hooks_txt = ""
+    keys = sorted(set(_re.findall(r'CHasKey "((?:[^"]|"")*)"', hooks_txt)) | set(_re.findall(r'HKey [^"]*"((?:[^"]|"")*)"', hooks_txt)))
+    lits = sorted(set(_re.findall(r'CEqStr \([^"]*"(?:[^"]|"")*"\) "((?:[^"]|"")*)"', hooks_txt)) | {"create", "x"})
+    prims = [None, True, 0, 7, 1.5, "s", "", "create", [], {}, [1], ["a", "b"], [None], {"k": 1}]
+    cases = []
+    hooked = set(_re.findall(r'^  \(\((\(PyUnion \[.*?\]\))\), ', hooks_txt, _re.M))
+    for u in pkg.get("unions", []):
+        if per_union <= 16 and hooked and u not in hooked:
+            continue            # quick tier: the unions with a registered hook or a cattrs disambiguator; thorough: every union type
+        members = _re.findall(r'\(PyCls "((?:[^"]|"")*)"\)', u)
+        vals = list(prims)
+        objs = []
+        for c in members:
+            if c in mmv.S:
+                for alt, depth in ((0, 0), (1, 3)):
+                    try:
+                        objs.append(mmv.value(mmlib.ref(c), 0, alt, depth))
+                    except Exception:
+                        pass
+        objs = [o for o in objs if isinstance(o, dict)]
+        for o in objs:
+            vals.append(o)
+            vals.append([o])
+        for _ in range(per_union):
+            if objs:
+                o = dict(rng.choice(objs))
+                for _e in range(rng.choice([1, 1, 2, 3])):
+                    k = rng.choice(keys) if keys else "x"
+                    r = rng.random()
+                    if r < 0.3:
+                        o.pop(k, None)
+                    elif r < 0.55:
+                        o[k] = rng.choice(prims + lits)
+                    elif r < 0.75:
+                        o[k] = rng.choice(objs)
+                    elif r < 0.9 and isinstance(o.get(k), dict):
+                        inner = dict(o[k])
+                        k2 = rng.choice(keys)
+                        if k2 in inner:
+                            inner.pop(k2)
+                        else:
+                            inner[k2] = rng.choice(prims)
+                        o[k] = inner
+                    else:
+                        o[k] = rng.choice(lits)
+                shape = rng.random()
+                vals.append(o if shape < 0.5 else ([o, rng.choice(objs)] if shape < 0.75 else [rng.choice(objs), o]))
+            else:
+                vals.append(rng.choice(prims))
+        seen = set()
+        for v in vals:
+            kk = json.dumps(v, sort_keys=True)
+            if kk in seen:
+                continue
+            seen.add(kk)
+            cases.append({"target": u, "input": v, "kind": "hook-fuzz", "site": "hook-fuzz:" + u[:60]})
+    return cases
+
+
 def alias_cases(mmv, pkg):
     """every type alias of the metamodel as a top-level target"""
     cases = []
@@ -447,6 +516,8 @@ def run_stream(chk, cases, tag, model=True):
     verdict, real = CS.run_cases(cases, tag, model=model)
     failing = []
     for i, (c, r) in enumerate(zip(cases, real)):
+        if c.get("kind") == "hook-fuzz":
+            continue            # not valid inputs: only model = real is demanded of them (the correspondence verdict)
         v = judge(c, r)
         if v:
             failing.append({"index": i, "case": c, "props": v})
@@ -553,6 +624,8 @@ def check_property(chk, prop, streams, extra_gen=()):
         if "rand" in streams:
             n = 1 if chk.tier == "quick" else 12
             cases += rand_cases(mmv, pkg, rng, n, n)
+        if "hookfuzz" in streams and ok:
+            cases += hook_fuzz_cases(mmv, pkg, rng, 8 if chk.tier == "quick" else 60)
         attach_types(mmv, cases)
         verdict, real, failing = run_stream(chk, cases, prop, model=ok)
     dist = {}
